@@ -6,6 +6,9 @@ import Operon.Model.Cffl
   cfg <gate> <breakerOn> <threshold> <timeoutUs> <cacheOn> <ttlUs> [<budget> [stub|real]]   -> "ok"
   run <pid|u<pid>> <zVerdict|exc> <yVerdict|exc>                            -> result ; stats
   adv <us> | resetcb | clearcache                                           -> "- ; stats"
+  reenter <gate> <cacheOn> <e|a> <depth> <pA> <zA> <yA> <pB> <zB> <yB>      -> "ok"   (search-side only: an agent
+      that issues a nested run() on the same loop is outside the model — `run` is atomic — and is judged by the
+      harness oracle alone)
   Verdicts are the raw `action_type` strings (`x:<hex code points>` for strings that are not one token).
 -/
 namespace Operon.Cffl.Drv
@@ -133,6 +136,7 @@ def step (d : DSt) (toks : List String) : DSt × String :=
   | ["clearcache"] =>
     let (s', _) := Cffl.step d.cfg idHashes d.st .clearcache
     ({ d with st := s' }, "- ; " ++ showStats s' d.store)
+  | ["reenter", _, _, _, _, _, _, _, _, _, _] => (d, "ok")   -- re-entrant agent stubs: judged by the harness oracle only
   | _ => (d, "bad-op")
 
 def main : IO Unit := runDriver ({} : DSt) step
